@@ -168,6 +168,17 @@ def main():
                 par = O.params(api, 8, 4)
                 whole = np.asarray(O.potential(api, "laplace", "single_layer", dp0, pts, parameters=par).evaluate(gf_psi)
                                    - O.potential(api, "laplace", "double_layer", p1, pts, parameters=par).evaluate(gf_g)).ravel()
+                # "every evaluation point": the value at a point does not depend on how many points are evaluated with it
+                # (1, 2, 3 = as many points as coordinates, 4 points; documented layout (3, N))
+                for npt_ in (1, 2, 3, 4):
+                    sub = np.ascontiguousarray(pts[:, :npt_])
+                    part = np.asarray(O.potential(api, "laplace", "single_layer", dp0, sub, parameters=par).evaluate(gf_psi)
+                                      - O.potential(api, "laplace", "double_layer", p1, sub, parameters=par).evaluate(gf_g)).ravel()
+                    dsub = float(np.abs(part - whole[:npt_]).max() / max(np.abs(whole).max(), 1e-300)) if part.shape == whole[:npt_].shape else np.inf
+                    ctx.count("point_subset_comparisons")
+                    if not (dsub <= 1e-12):
+                        ctx.violation("green:value_depends_on_number_of_points", "%s: evaluating the first %d of %d points alone changes their values by %.3e (relative to max |u|)"
+                                      % (cid, npt_, pts.shape[1], dsub), cid)
                 mseg = m if len(set(m.D.tolist())) > 1 else M.assign_domains(m, rng, 3, values=[4, 1, 8])
                 gseg = M.to_grid(mseg)
                 doms = sorted(set(mseg.D.tolist()))
